@@ -399,6 +399,27 @@ impl<R: Read> Reader<R> {
         })
     }
 
+    /// Returns the position (in the file list of the header) of the file this archive entry
+    /// belongs to: stripped entries carry it, regular entries are looked up by name.
+    pub fn file_index(&self, file_entries: &[FileEntry]) -> Option<usize> {
+        match &self.entry {
+            RpmPayloadEntry::Stripped(idx) => {
+                Some(*idx as usize).filter(|idx| *idx < file_entries.len())
+            }
+            RpmPayloadEntry::Cpio(c) => {
+                // names in the archive are relative ("./usr/bin/foo"), paths in the header absolute
+                let name = c
+                    .name
+                    .strip_prefix("./")
+                    .or_else(|| c.name.strip_prefix('/'))
+                    .unwrap_or(&c.name);
+                file_entries.iter().position(|e| {
+                    e.path.strip_prefix("/").unwrap_or(&e.path) == std::path::Path::new(name)
+                })
+            }
+        }
+    }
+
     /// Returns the metadata for this entry.
     pub fn is_trailer(&self) -> bool {
         match &self.entry {
